@@ -17,7 +17,7 @@ from ..core import (
     place_fields,
     self_fields_read,
 )
-from ..flow import conditions, consumers
+from ..flow import conditions, consumers, switch_subject
 from ..core import switch_sites
 from .. import engine
 from . import io_rules
@@ -1149,6 +1149,34 @@ def rule_iccma_guards(ctx):
             _check_id(prog, r, s.body, s.node["args"][pos], s, "%s|%s" % (rd.id, role), role, pos - 1)
     # G1 the preamble `p <kind> <n>`: the count is returned only for first word "p", second word = the expected kind, n >= 0 (0 included)
     _check_preamble(prog, r, rd)
+    # G1b the preamble is read once: inside the line loop the framework is (re)built only while there is none yet
+    from ..prov import prov as _pv, subterms as _sub
+    from .grounded import inherited_conditions as _ic, _cond_trees as _ct
+
+    for y in prog.with_closures(rd):
+        for s in y.calls():
+            if not callee_matches(callee_of(s), r"AAFramework::new_with_argument_set$|AAFramework::<.*>::new_with_argument_set$") or not y.in_loop(s.bb):
+                continue
+            dst_roots = set()
+            guard = None
+            for c, t in _ct(prog, _ic(prog, y, s.bb)):
+                if c[0] == "call" and re.search(r"Option::is_(none|some)$", c[1]):
+                    guard = (c[1].endswith("is_none")) == bool(t)
+            raw = [c for c in conditions(y, s.bb) if c.is_discr and "core::option::Option<aa::aa_framework::AAFramework" in y.local_ty(c.place["l"]).replace("&", "")]
+            for c in raw:
+                if not c.negated and c.values == ["0"]:
+                    guard = True
+                elif (not c.negated and c.values == ["1"]) or (c.negated and c.values == ["0"]):
+                    guard = False
+            if guard is None:
+                # `if af.is_none() || other { build }`: no test of the framework option governs the construction on every path
+                has_test = any(re.search(r"Option::is_(none|some)$", callee_decl(callee_of(x))) for x in y.calls()) or any("Option<aa::aa_framework::AAFramework" in y.local_ty((switch_subject(y, sw) or ({"l": 0},))[0]["l"]) for sw in switch_sites(y) if switch_subject(y, sw))
+                if has_test:
+                    r.violation(rd.id + "|preamble-once", "framework-rebuilt", "inside the line loop the framework can be built again although one exists already (the construction is not governed by `there is no framework yet` on every path): a later preamble-like line throws away the attacks read so far", s.loc())
+                else:
+                    r.ok(rd.id + "|preamble-once", "NOT decided: how the reader knows that the preamble was read is not recognised", s.loc())
+            else:
+                r.check(guard, rd.id + "|preamble-once", "framework-rebuilt", "the framework is built only while there is none yet", "the framework is built inside the line loop when one exists already", s.loc())
     # G4 content after a blank line
     res = _blank_line_rejected(prog, rd)
     if res is None:
